@@ -5,6 +5,7 @@ cd "$(dirname "$0")"
 if [ -f tools/py2lean.py ]; then
   /venv/bin/python tools/py2lean.py --repo /repo --out lean/PGM/Generated || true
   /venv/bin/python tools/py2flow.py --repo /repo --out lean/PGM/Generated || true
+  /venv/bin/python tools/py2dom.py --repo /repo --out lean/PGM/Generated || true
 fi
 cd lean
 lake build PGM pgmdriver pgmgen
